@@ -64,7 +64,7 @@ def render_nodes(nodes, eol):
     else:
       out.append("<" + n["name"] + "".join("." + c for c in n["classes"]))
       if n["annot"] is not None:
-        out.append(" " + n["annot"])
+        out.append(n.get("sep", " ") + n["annot"])
       out.append(">")
       out.append(render_nodes(n["kids"], eol))
       if n.get("close", True):
@@ -429,6 +429,11 @@ def _make_tag(rng, items, depth, maxdepth, in_ruby, p_wrap, opts, force=None):
     # else: <c> without class
   elif name == "lang":
     node["annot"] = rng.choice(LANGS)
+    if rng.random() < 0.3:
+      # classes without UA style before the annotation: <lang.loud.x1 en>
+      node["classes"] = rng.sample(OTHER_CLASSES, rng.choice([1, 1, 2]))
+    if rng.random() < 0.15:
+      node["sep"] = "\t"
   elif name == "v":
     if opts.get("annot_cref", False) and rng.random() < 0.5:
       node["annot"] = rng.choice(VOICES_CREF)
